@@ -19,6 +19,14 @@ pub proof fn lemma_sat_mono(c: Seq<Literal>, m: PartialModel, m2: PartialModel)
     assert(lit_true_p(c[j], m2));
 }
 
+pub proof fn lemma_member_sat(c: Seq<Literal>, l: Literal, m: PartialModel)
+    requires c.contains(l), m.val(l.lbl) == Some(l.pol),
+    ensures clause_true_p(c, m),
+{
+    let j = choose|j: int| 0 <= j < c.len() && c[j] == l;
+    assert(lit_true_p(c[j], m));
+}
+
 impl UnitPropagate {
     pub open spec fn list(&self, l: Literal) -> Seq<usize> { wl(self.watch_list_pos@, self.watch_list_neg@, l) }
     pub open spec fn in_rng(&self, l: Literal) -> bool { l.lbl.0 < self.cnf.num_vars }
@@ -174,9 +182,38 @@ pub open spec fn move_rel(u1: UnitPropagate, u2: UnitPropagate, nl: Literal, w: 
     &&& u2.watch_list_pos@.len() == u1.watch_list_pos@.len() && u2.watch_list_neg@.len() == u1.watch_list_neg@.len()
     &&& forall|l: Literal| u1.in_rng(l) && l != nl && l != newl ==> #[trigger] u2.list(l) == u1.list(l)
     &&& u2.list(newl) == u1.list(newl).push(i)
-    &&& u2.list(nl).len() == u1.list(nl).len() - 1
-    &&& forall|j: int| 0 <= j < u2.list(nl).len() && j != w ==> #[trigger] u2.list(nl)[j] == u1.list(nl)[j]
-    &&& (w < u2.list(nl).len() ==> u2.list(nl)[w] == u1.list(nl)[u1.list(nl).len() - 1])
+    &&& taken_out(u1.list(nl), u2.list(nl), w)
+}
+/// the entry at position w is taken out of a list (by swap_remove, remove, ...): the entries before w stay where they are,
+/// every later entry of the new list is a later entry of the old one, and no other entry is lost
+pub open spec fn taken_out(s1: Seq<usize>, s2: Seq<usize>, w: int) -> bool {
+    &&& s2.len() == s1.len() - 1
+    &&& forall|j: int| 0 <= j < w ==> #[trigger] s2[j] == s1[j]
+    &&& forall|j: int| w <= j < s2.len() ==> later_entry(s1, w, #[trigger] s2[j])
+    &&& forall|k: int| 0 <= k < s1.len() && k != w ==> s2.contains(#[trigger] s1[k])
+}
+pub open spec fn later_entry(s1: Seq<usize>, w: int, x: usize) -> bool { exists|k: int| w < k < s1.len() && #[trigger] s1[k] == x }
+/// Vec::swap_remove and Vec::remove both take the entry out in this sense
+pub proof fn lemma_taken_out(s1: Seq<usize>, s2: Seq<usize>, w: int)
+    requires
+        0 <= w < s1.len(),
+        (s2.len() == s1.len() - 1 && (forall|j: int| 0 <= j < s2.len() && j != w ==> #[trigger] s2[j] == s1[j]) && (w < s2.len() ==> s2[w] == s1[s1.len() - 1]))
+        || s2 =~= s1.remove(w),
+    ensures taken_out(s1, s2, w),
+{
+    if s2 =~= s1.remove(w) {
+        assert forall|j: int| w <= j < s2.len() implies later_entry(s1, w, #[trigger] s2[j]) by { assert(s1[j + 1] == s2[j]); }
+        assert forall|k: int| 0 <= k < s1.len() && k != w implies s2.contains(#[trigger] s1[k]) by {
+            if k < w { assert(s2[k] == s1[k]); } else { assert(s2[k - 1] == s1[k]); }
+        }
+    } else {
+        assert forall|j: int| w <= j < s2.len() implies later_entry(s1, w, #[trigger] s2[j]) by {
+            if j == w { assert(s1[s1.len() - 1] == s2[j]); } else { assert(s1[j] == s2[j]); }
+        }
+        assert forall|k: int| 0 <= k < s1.len() && k != w implies s2.contains(#[trigger] s1[k]) by {
+            if k == s1.len() - 1 { assert(s2[w] == s1[k]); } else { assert(s2[k] == s1[k]); }
+        }
+    }
 }
 /// a clause other than the moved one that l watched is still watched by l
 pub proof fn lemma_move_keeps(u1: UnitPropagate, u2: UnitPropagate, nl: Literal, w: int, newl: Literal, i: usize, l: Literal, k: usize)
@@ -185,8 +222,8 @@ pub proof fn lemma_move_keeps(u1: UnitPropagate, u2: UnitPropagate, nl: Literal,
 {
     let p = choose|p: int| 0 <= p < u1.list(l).len() && u1.list(l)[p] == k;
     if l == nl {
-        let n1 = u1.list(nl).len();
-        if p == n1 - 1 { assert(p != w); assert(u2.list(nl)[w] == k); } else { assert(p != w); assert(u2.list(nl)[p] == k); }
+        assert(p != w);
+        assert(u2.list(nl).contains(u1.list(nl)[p]));
     } else if l == newl {
         assert(u2.list(l)[p] == k);
     } else {
@@ -199,7 +236,11 @@ pub proof fn lemma_move_entries(u1: UnitPropagate, u2: UnitPropagate, nl: Litera
     ensures (l == newl && u2.list(l)[j] == i) || u1.list(l).contains(u2.list(l)[j]),
 {
     if l == nl {
-        if j == w { assert(u1.list(nl)[u1.list(nl).len() - 1] == u2.list(l)[j]); } else { assert(u1.list(nl)[j] == u2.list(l)[j]); }
+        if j < w { assert(u1.list(nl)[j] == u2.list(l)[j]); } else {
+            assert(later_entry(u1.list(nl), w, u2.list(nl)[j]));
+            let k = choose|k: int| w < k < u1.list(nl).len() && #[trigger] u1.list(nl)[k] == u2.list(nl)[j];
+            assert(u1.list(nl)[k] == u2.list(l)[j]);
+        }
     } else if l == newl {
         if j < u1.list(l).len() { assert(u1.list(l)[j] == u2.list(l)[j]); }
     } else {
